@@ -461,6 +461,9 @@ def specials():
                 "int\t\tft_a(int a, ...);\nstatic void\tft_b(void (*f)(int), t_a *l);\nt_a\t\t*ft_c(const char *restrict s, unsigned long n);\n")
     out.append(("zoo_glob.h", header42("zoo_glob.h") + "\n#ifndef ZOO_GLOB_H\n# define ZOO_GLOB_H\n\n" + zoo_glob + "\n#endif\n", "zoo"))
     out.append(("zoo_glob.c", header42("zoo_glob.c") + "\n" + zoo_glob, "zoo"))
+    # statements whose handling depends on the debug level in the rules (fatal by default, tolerated under -d)
+    for k, body in enumerate(["\tgoto 1;\n", "\tgoto ;\n", "\tgoto *p;\n", "\tgoto (a);\n", "\tint\ti;\n\n\ti = 0;\n\t) i++;\n"]):
+        out.append((f"zoo_dbg{k}.c", ok_func(f"zoo_dbg{k}.c", body=body + "\treturn (0);\n"), "zoo"))
     # malformed literals (4.11)
     lits = ["0b102", "0189", "0xfg", "10lul", "10q", "1uu", "0x1e+1", "1e", "1e+", "1.e-", "1.2.3", "1.0q", "1.0ff",
             "0xx1p1", "0x1.8", "''", "'ab'", "'\\x'", "'\\q'", "L'a'", "u8\"s\"", "L''", "\"\\xZZ\"", "1..2", ".5.", "0x",
